@@ -4,9 +4,6 @@ package main
 
 import (
 	"fmt"
-	"go/token"
-	"sort"
-	"strings"
 
 	"golang.org/x/tools/go/ssa"
 )
@@ -19,218 +16,6 @@ func init() {
 
 func reverseLookup(c *Ctx, r *Report, rule string) *ssa.Function {
 	return c.Fn(r, rule, "calendar.ListSolarFromBaZiBySectAndBaseYear")
-}
-
-func r10_1(c *Ctx, r *Report) {
-	const rule = "R10.1"
-	r.rule(rule, "Soundness by dominance. Every PushBack(solar) in ListSolarFromBaZiBySectAndBaseYear is dominated by the conjunction of four equalities between the requested pillars and GetYearInGanZhiExact, GetMonthInGanZhiExact, the day pillar and GetTimeInGanZhi of solar.GetLunar() — the same solar that is pushed — and by solarTime.GetYear() >= baseYear.")
-	fn := reverseLookup(c, r, rule)
-	if fn == nil {
-		return
-	}
-	n := 0
-	for _, b := range fn.Blocks {
-		for _, ins := range b.Instrs {
-			call, ok := ins.(*ssa.Call)
-			if !ok || call.Common().StaticCallee() == nil || call.Common().StaticCallee().String() != "(*container/list.List).PushBack" {
-				continue
-			}
-			n++
-			pushed := call.Common().Args[1]
-			if mi, ok := pushed.(*ssa.MakeInterface); ok {
-				pushed = mi.X
-			}
-			// dominating equality tests
-			found := map[string]bool{}
-			base := false
-			for _, blk := range fn.Blocks {
-				iff, ok := blk.Instrs[len(blk.Instrs)-1].(*ssa.If)
-				if !ok {
-					continue
-				}
-				if x, y, op, ok := stringCompareAtom(iff.Cond); ok && op == token.EQL && len(blk.Succs[0].Preds) >= 1 && blk.Succs[0].Dominates(b) {
-					for _, pr := range [][2]ssa.Value{{x, y}, {y, x}} {
-						p, isParam := pr[1].(*ssa.Parameter)
-						if !isParam {
-							continue
-						}
-						acc, lunarOf := pillarAccessorOf(pr[0])
-						if acc == "" || lunarOf != pushed {
-							continue
-						}
-						found[[]string{"yearGanZhi", "monthGanZhi", "dayGanZhi", "timeGanZhi", "?", "?", "?"}[min(paramIndex(fn, p)&7, 6)]+"="+acc] = true
-					}
-				}
-				if bo, ok := iff.Cond.(*ssa.BinOp); ok && bo.Op == token.GEQ && blk.Succs[0].Dominates(b) {
-					if p, ok := bo.Y.(*ssa.Parameter); ok && paramIndex(fn, p) == len(fn.Params)-1 { // the base year (last parameter)
-						if g, ok := bo.X.(*ssa.Call); ok && g.Common().StaticCallee() != nil && g.Common().StaticCallee().Name() == "GetYear" {
-							base = true
-						}
-					}
-				}
-			}
-			want := []string{"monthGanZhi=GetMonthInGanZhiExact", "timeGanZhi=GetTimeInGanZhi", "yearGanZhi=GetYearInGanZhiExact"}
-			var got []string
-			day := false
-			for k := range found {
-				if strings.HasPrefix(k, "dayGanZhi=") {
-					day = true
-					continue
-				}
-				got = append(got, k)
-			}
-			sort.Strings(got)
-			r.check(equalStrs(got, want) && day && base, rule, "calendar.ListSolarFromBaZiBySectAndBaseYear: every pushed moment was verified by forward conversion", c.pos(call.Pos()),
-				fmt.Sprintf("dominating equalities on the pushed solar's own lunar date: %v, day pillar: %v, year >= baseYear: %v", sortedKeys(found), day, base))
-		}
-	}
-	if n == 0 {
-		r.bad(rule, "instance floor R10.1", c.fnPos(fn), "no PushBack found")
-	}
-}
-
-// pillarAccessorOf: v is L.GetX() (possibly through a phi of the two day variants) where L = S.GetLunar(); returns X and S.
-func pillarAccessorOf(v ssa.Value) (string, ssa.Value) {
-	if phi, ok := v.(*ssa.Phi); ok {
-		name, recv := "", ssa.Value(nil)
-		for _, e := range phi.Edges {
-			n, rv := pillarAccessorOf(e)
-			if n == "" || (recv != nil && rv != recv) {
-				return "", nil
-			}
-			recv = rv
-			if name == "" {
-				name = n
-			} else if name != n {
-				name = name + "|" + n
-			}
-		}
-		return name, recv
-	}
-	call, ok := v.(*ssa.Call)
-	if !ok || call.Common().StaticCallee() == nil || !strings.HasPrefix(call.Common().StaticCallee().Name(), "Get") {
-		return "", nil
-	}
-	l, ok := call.Common().Args[0].(*ssa.Call)
-	if !ok || l.Common().StaticCallee() == nil || l.Common().StaticCallee().Name() != "GetLunar" {
-		return "", nil
-	}
-	return call.Common().StaticCallee().Name(), l.Common().Args[0]
-}
-
-func r10_2(c *Ctx, r *Report) {
-	const rule = "R10.2"
-	r.rule(rule, "Day-boundary convention. sect is normalised to {1,2}; the day pillar compared in the verification is …Exact2 under sect == 2 and …Exact otherwise; the rat slot is searched at hours {0, 23} exactly when sect == 2.")
-	fn := reverseLookup(c, r, rule)
-	if fn == nil {
-		return
-	}
-	norm := false
-	for _, b := range fn.Blocks {
-		for _, ins := range b.Instrs {
-			if phi, ok := ins.(*ssa.Phi); ok && len(phi.Edges) == 2 && isIntType(phi.Type()) {
-				if cond, _, ok := phiSelector(phi); ok {
-					if bo, ok := cond.(*ssa.BinOp); ok && bo.Op == token.NEQ {
-						// the merge of a parameter with the constant 2 under `parameter != 1`
-						prm, isPrm := bo.X.(*ssa.Parameter)
-						if k, ok := constInt(bo.Y); ok && k == 1 && isPrm {
-							two, same := false, false
-							for _, e := range phi.Edges {
-								if k2, ok := constInt(e); ok && k2 == 2 {
-									two = true
-								}
-								if e == ssa.Value(prm) {
-									same = true
-								}
-							}
-							if two && same {
-								norm = true
-							}
-						}
-					}
-				}
-			}
-		}
-	}
-	r.check(norm, rule, "sect is normalised to 1 or 2", c.fnPos(fn), "if sect != 1 { sect = 2 }")
-	variant := ""
-	for _, b := range fn.Blocks {
-		for _, ins := range b.Instrs {
-			phi, ok := ins.(*ssa.Phi)
-			if !ok || len(phi.Edges) != 2 || !isStringType(phi.Type()) {
-				continue
-			}
-			cond, e0true, ok := phiSelector(phi)
-			if !ok {
-				continue
-			}
-			bo, ok := cond.(*ssa.BinOp)
-			if !ok || bo.Op != token.EQL {
-				continue
-			}
-			k, ok1 := constInt(bo.X)
-			if !ok1 {
-				k, ok1 = constInt(bo.Y)
-			}
-			if !ok1 || k != 2 {
-				continue
-			}
-			names := []string{}
-			for _, e := range phi.Edges {
-				if call, ok := e.(*ssa.Call); ok && call.Common().StaticCallee() != nil {
-					names = append(names, call.Common().StaticCallee().Name())
-				}
-			}
-			if len(names) == 2 {
-				t, f := names[0], names[1]
-				if !e0true {
-					t, f = f, t
-				}
-				variant = "sect==2:" + t + " else:" + f
-			}
-		}
-	}
-	r.check(variant == "sect==2:GetDayInGanZhiExact2 else:GetDayInGanZhiExact", rule, "the verified day pillar follows sect", c.fnPos(fn), variant)
-}
-
-func r10_3(c *Ctx, r *Report) {
-	const rule = "R10.3"
-	r.rule(rule, "Order shape. Results are only appended (PushBack, never PushFront/Insert), inside loops whose candidates increase: the candidate year advances by +60 per iteration and the hour list of the rat slot is the ascending {0, 23} within one civil day.")
-	fn := reverseLookup(c, r, rule)
-	if fn == nil {
-		return
-	}
-	ef := c.eff.Of(fn)
-	onlyBack := true
-	for k := range ef.Ext {
-		if strings.HasPrefix(k, "(*container/list.List).") && (strings.Contains(k, "PushFront") || strings.Contains(k, "Insert") || strings.Contains(k, "Move")) {
-			onlyBack = false
-		}
-	}
-	u := intConstUses(fn)
-	stride := countConst(u, token.ADD, 60) >= 2
-	// hours literal {0, 23}
-	asc := false
-	var stores []int64
-	for _, b := range fn.Blocks {
-		for _, ins := range b.Instrs {
-			if st, ok := ins.(*ssa.Store); ok {
-				if ia, ok := st.Addr.(*ssa.IndexAddr); ok {
-					if _, ok := constInt(ia.Index); ok {
-						if k, ok := constInt(st.Val); ok {
-							stores = append(stores, k)
-						}
-					}
-				}
-			}
-		}
-	}
-	for i := 0; i+1 < len(stores); i++ {
-		if stores[i] == 0 && stores[i+1] == 23 {
-			asc = true
-		}
-	}
-	r.check(onlyBack && stride && asc, rule, "results are appended in increasing candidate order", c.fnPos(fn), fmt.Sprintf("append-only: %v; year stride +60: %v; rat-slot hours ascending {0,23}: %v", onlyBack, stride, asc))
 }
 
 func r10_4(c *Ctx, r *Report) {
@@ -260,43 +45,3 @@ func r10_4(c *Ctx, r *Report) {
 	}
 }
 
-func r10_5(c *Ctx, r *Report) {
-	const rule = "R10.5"
-	r.rule(rule, "Candidate construction by civil-day arithmetic. The day offset is index(requested day pillar) - index(day pillar of the term's own civil day), wrapped into [0,60), where the reference is the civil-day (late-rat, …Exact2) pillar of the term moment for both schools — the offset is then applied as whole civil days (Next(d, false)); a school-dependent reference shifts every candidate of a month whose Jie falls in 23:00-23:59 by one day. This is a necessary condition of completeness, which is otherwise not decided.")
-	fn := reverseLookup(c, r, rule)
-	if fn == nil {
-		return
-	}
-	ref, okShape := "", false
-	for _, b := range fn.Blocks {
-		for _, ins := range b.Instrs {
-			bo, ok := ins.(*ssa.BinOp)
-			if !ok || bo.Op != token.SUB {
-				continue
-			}
-			l, ok1 := bo.X.(*ssa.Call)
-			rr, ok2 := bo.Y.(*ssa.Call)
-			if !ok1 || !ok2 || l.Common().StaticCallee() == nil || rr.Common().StaticCallee() == nil || l.Common().StaticCallee().Name() != "GetJiaZiIndex" || rr.Common().StaticCallee().Name() != "GetJiaZiIndex" {
-				continue
-			}
-			if p, ok := l.Common().Args[0].(*ssa.Parameter); !ok || p.Name() != "dayGanZhi" {
-				continue
-			}
-			name, _ := pillarAccessorOf(rr.Common().Args[0])
-			ref = name
-			okShape = true
-		}
-	}
-	stepped := false
-	for _, b := range fn.Blocks {
-		for _, ins := range b.Instrs {
-			if call, ok := ins.(*ssa.Call); ok && call.Common().StaticCallee() != nil && fname(call.Common().StaticCallee()) == "calendar.(*Solar).Next" {
-				if v, ok := constBool(call.Common().Args[2]); ok && !v {
-					stepped = true
-				}
-			}
-		}
-	}
-	r.check(okShape && ref == "GetDayInGanZhiExact2" && stepped, rule, "the day offset is measured from the civil-day pillar of the term moment", c.fnPos(fn),
-		fmt.Sprintf("reference pillar accessor: %q; applied with Next(d, false): %v", ref, stepped))
-}
